@@ -144,7 +144,8 @@ Proof. exact endpointslice_delete_consulted. Qed.
 Print Assumptions C15_endpointslice_delete_witness.
 
 (* Non-vacuity: a VirtualServer in ns1 whose route names a policy of ns2 (cross-namespace) that names a
-   JWT secret; a VirtualServerRoute in ns2 with a WAF policy on a subroute; DoS at spec and route level. *)
+   JWT secret; a VirtualServerRoute in ns2 with a WAF policy on a subroute; DoS at spec and route level, the
+   DosProtectedResource of the spec naming an APDosPolicy of its own namespace and an APDosLogConf of another one. *)
 Definition ex_env : env := {| plus := true; ap_enabled := true; dos_enabled := true; vsr_backup_fix := false; backup_ep_fix := false; slice_delete_fix := false |}.
 Definition ex_pol_jwt : policy :=
   {| p_ns := "ns2"; p_name := "jwt"; p_valid := true; p_class_ok := true; p_jwt := Some ("jwk", false); p_basic := None;
@@ -155,8 +156,9 @@ Definition ex_pol_waf : policy :=
      p_waf := Some {| w_ap_policy := "ns1/dataguard"; w_seclog := None; w_seclogs := Some ["logconf"] |} |}.
 Definition ex_cl : cluster :=
   {| cl_policies := [ex_pol_jwt; ex_pol_waf]; cl_secrets_ok := ["ns2/jwk"];
-     cl_ap_ok := [(KApPolicy, "ns1/dataguard"); (KApLogConf, "ns2/logconf")];
-     cl_services := [("ns1/tea", SvcPods); ("ns2/coffee", SvcPods)] |}.
+     cl_ap_ok := [(KApPolicy, "ns1/dataguard"); (KApLogConf, "ns2/logconf"); (KDosPolicy, "ns1/dpol"); (KDosLogConf, "ns2/dlog")];
+     cl_services := [("ns1/tea", SvcPods); ("ns2/coffee", SvcPods)];
+     cl_dos := [{| d_ns := "ns1"; d_name := "dos"; d_valid := true; d_policy := "dpol"; d_logconf := Some "ns2/dlog" |}] |}.
 Definition ex_vs : resource :=
   RVS {| vs_ns := "ns1"; vs_tls := Some "tls"; vs_policies := []; vs_dos := "dos";
          vs_upstreams := [{| u_service := "tea"; u_backup := ""; u_backup_port := false; u_subselector := false; u_use_cluster_ip := false |}];
@@ -167,7 +169,8 @@ Definition ex_vs : resource :=
 
 Example C15_nonvacuous_consulted :
   map snd (consulted ex_env ex_cl ex_vs) =
-  [(KSecret, "ns1/tls"); (KDos, "ns1/dos"); (KService, "ns1/tea"); (KEndpoints, "ns1/tea");
+  [(KSecret, "ns1/tls"); (KDos, "ns1/dos"); (KDosPolicy, "ns1/dpol"); (KDosLogConf, "ns2/dlog");
+   (KService, "ns1/tea"); (KEndpoints, "ns1/tea");
    (KPolicy, "ns2/jwt"); (KSecret, "ns2/jwk"); (KDos, "ns2/dos");
    (KPolicy, "ns2/waf"); (KApPolicy, "ns1/dataguard"); (KApLogConf, "ns2/logconf");
    (KService, "ns2/coffee"); (KEndpoints, "ns2/coffee")].
@@ -175,9 +178,10 @@ Proof. vm_compute. reflexivity. Qed.
 
 Example C15_nonvacuous_reached :
   forallb (fun d => match d with (k, ns, name) => reaches ex_env ex_cl k ns name ex_vs end)
-    [(KSecret, "ns1", "tls"); (KDos, "ns1", "dos"); (KService, "ns1", "tea"); (KEndpoints, "ns1", "tea");
+    [(KSecret, "ns1", "tls"); (KDos, "ns1", "dos"); (KDosPolicy, "ns1", "dpol"); (KDosLogConf, "ns2", "dlog"); (KService, "ns1", "tea"); (KEndpoints, "ns1", "tea");
      (KPolicy, "ns2", "jwt"); (KSecret, "ns2", "jwk"); (KDos, "ns2", "dos"); (KPolicy, "ns2", "waf");
      (KApPolicy, "ns1", "dataguard"); (KApLogConf, "ns2", "logconf"); (KService, "ns2", "coffee"); (KEndpoints, "ns2", "coffee")] = true
   /\ reaches ex_env ex_cl KSecret "ns1" "jwk" ex_vs = false
-  /\ reaches ex_env ex_cl KService "ns2" "tea" ex_vs = false.
+  /\ reaches ex_env ex_cl KService "ns2" "tea" ex_vs = false
+  /\ reaches ex_env ex_cl KDosPolicy "ns2" "dpol" ex_vs = false.
 Proof. vm_compute. repeat split. Qed.
